@@ -121,6 +121,7 @@ class Check:
     thorough_only: bool = False
     distinct_by_construction: bool = False
     doc: str = ""
+    fuzz_runs: int = 0  # thorough tier: executions per coverage-guided (atheris) campaign, 4 campaigns
 
 
 @dataclass
@@ -225,6 +226,10 @@ def run_shard(mod_name: str, check_name: str, tier: str, seed: int, shard: int, 
     """Executed in a worker process (or inline for the quick tier)."""
     t0 = time.time()
     try:
+        from vlib import pio as _pio
+
+        if nshards > 1:
+            _pio._TMP = None  # forked workers must not share (and remove) the parent's scratch directory
         setup_repo_import()
         mod = __import__(f"props.{mod_name}", fromlist=["x"])
         check = next(c for c in mod.CHECKS if c.name == check_name)
@@ -249,6 +254,46 @@ def run_shard(mod_name: str, check_name: str, tier: str, seed: int, shard: int, 
         from vlib import pio
 
         pio.cleanup()
+
+
+def run_fuzz_campaign(mod_name: str, check_name: str, runs: int, seed: int, idx: int) -> ShardResult:
+    """One atheris/libFuzzer campaign in a subprocess (vlib/fuzz.py); its counters come back as a ShardResult."""
+    import shutil
+    import subprocess
+    import tempfile
+
+    r = ShardResult(check=check_name + "@atheris")
+    t0 = time.time()
+    base = tempfile.mkdtemp(prefix="praatio-verif-fuzz-", dir=os.environ.get("TMPDIR") or "/var/tmp")
+    out = os.path.join(base, "out.json")
+    env = dict(os.environ)
+    env["TMPDIR"] = base
+    env["PYTHONPATH"] = os.path.join(VERIF_DIR, ".deps") + os.pathsep + env.get("PYTHONPATH", "")
+    try:
+        p = subprocess.run(
+            [sys.executable, "-m", "vlib.fuzz", mod_name.upper(), check_name, str(runs), str(seed * 100 + idx + 1), out],
+            cwd=VERIF_DIR, env=env, stdout=subprocess.PIPE, stderr=subprocess.STDOUT, timeout=3 * 3600,
+        )
+        if not os.path.exists(out):
+            r.harness_error = "atheris campaign produced no result: " + p.stdout.decode("utf-8", "replace")[-1500:]
+            return r
+        with open(out) as fd:
+            body = json.load(fd)
+        r.evaluations = body["evaluations"]
+        r.nontrivial_count = body["nontrivial"]
+        r.classes = body["classes"]
+        r.excluded_known = body["excluded_known"]
+        if body["violation"]:
+            v = body["violation"]
+            v["check"] = check_name
+            r.violations.append(v)
+        elif p.returncode not in (0,):
+            # libFuzzer exits non-zero only on a crash of the target
+            r.harness_error = f"atheris exited {p.returncode}: " + p.stdout.decode("utf-8", "replace")[-1500:]
+        r.wall_s = time.time() - t0
+        return r
+    finally:
+        shutil.rmtree(base, ignore_errors=True)
 
 
 def _run_enum(rec: _Recorder, tier: str, shard: int, nshards: int) -> None:
@@ -497,6 +542,10 @@ def main(argv: List[str]) -> int:
                 pool.apply_async(run_shard, (mod_name, c.name, tier, seed, s, ns))
                 for c, s, ns in jobs
             ]
+            for c in checks:
+                if c.fuzz_runs and os.path.isdir(os.path.join(VERIF_DIR, ".deps", "atheris")):
+                    for i in range(4):
+                        asyncs.append(pool.apply_async(run_fuzz_campaign, (mod_name, c.name, c.fuzz_runs, seed, i)))
             for a in asyncs:
                 results.append(a.get())
 
@@ -516,7 +565,12 @@ def main(argv: List[str]) -> int:
     samples: List[Any] = []
     class_samples: Dict[str, Any] = {}
     exhaustive_checks = []
+    merged = list(checks)
     for c in checks:
+        if any(r.check == c.name + "@atheris" for r in results):
+            merged.append(Check(c.name + "@atheris", c.run, kind="atheris", distinct_by_construction=True,
+                                doc="coverage-guided libFuzzer campaigns over the same strategy (Hypothesis fuzz_one_input), 4 seeds"))
+    for c in merged:
         rs = [r for r in results if r.check == c.name]
         digs = set()
         for r in rs:
@@ -545,6 +599,7 @@ def main(argv: List[str]) -> int:
             "distinct_nontrivial": nt,
             "exhaustive": bool(c.exhaustive),
             "space_size": sum(r.space_size for r in rs) if c.kind == "enum" else None,
+            "campaigns": len(rs) if c.kind == "atheris" else None,
             "wall_s": round(max((r.wall_s for r in rs), default=0.0), 2),
             "doc": c.doc,
         }
